@@ -49,7 +49,7 @@ structure EdgeRec where
   deriving DecidableEq, Repr
 
 inductive Val where
-  | node (label : Nat) (ver : Nat)
+  | node (labels : List Nat) (ver : Nat)
   | edge (r : EdgeRec)
   | list (l : List Nat)
   deriving DecidableEq, Repr
@@ -90,6 +90,11 @@ def inL (m : KV) (n : Nat) : List Nat := listOf (m (.inn n))
 
 /-! ### results and programs -/
 
+/-- why one item of a `batch_delete_*` call failed (the `cause` string of `GraphBatchItemError`) -/
+inductive Cause where
+  | notFound | storage | partialDel
+  deriving DecidableEq, Repr
+
 inductive Res where
   | id (n : Nat)
   | ok
@@ -97,6 +102,10 @@ inductive Res where
   | edgeNotFound (e : Nat)
   | storage
   | partialDel
+  | ids (first cnt : Nat)                 -- `BatchResult`: created ids `first .. first+cnt-1`
+  | batchInvalid (idx n : Nat)            -- `BatchValidationError { index, NodeNotFound(n) }`
+  | batchDel (deleted : List Nat) (failed : List (Nat × Nat × Cause))   -- `BatchDeleteResult`
+  | count (n : Nat)                       -- `batch_update_nodes`: number of updates applied
   deriving DecidableEq, Repr
 
 inductive Prog where
@@ -107,6 +116,8 @@ inductive Prog where
   | ex (k : Key) (c : Bool → Prog)
   | allocN (c : Nat → Prog)              -- node_counter.fetch_add(1) + 1   (no yield point)
   | allocE (c : Nat → Prog)              -- edge_counter.fetch_add(1) + 1   (no yield point)
+  | allocNs (cnt : Nat) (c : Nat → Prog) -- node_counter.fetch_add(cnt) + 1: first id of a block
+  | allocEs (cnt : Nat) (c : Nat → Prog) -- edge_counter.fetch_add(cnt) + 1: first id of a block
   | acq (k : Key) (c : Prog)             -- edge_list_lock(k).write()        (no yield point, blocks)
   | rel (k : Key) (c : Prog)             -- drop of that guard               (no yield point)
 
@@ -136,7 +147,7 @@ def rmFromOld (k : Key) (e : Nat) (c : Prog) : Prog :=
 
 /-- `create_node_with_labels` after validation: alloc id, put record, put the two empty lists -/
 def createNodeFrom (id label v : Nat) : Prog :=
-  .put (.node id) (.node label v) <|
+  .put (.node id) (.node [label] v) <|
   .put (.out id) (.list []) <|
   .put (.inn id) (.list []) <|
   .done (.id id)
@@ -282,8 +293,8 @@ def deleteNodeProg (id : Nat) (hint : List Nat) : Prog := deleteNodeProgT PARALL
 def updateNodePut (id : Nat) (lab : Option Nat) (v : Nat) (v2 : Option Val) : Prog :=
   match v2 with
   | none => .done (.nodeNotFound id)
-  | some (.node l _) => .put (.node id) (.node (lab.getD l) v) (.done .ok)
-  | some _ => .put (.node id) (.node (lab.getD 0) v) (.done .ok)
+  | some (.node l _) => .put (.node id) (.node ((lab.map fun x => [x]).getD l) v) (.done .ok)
+  | some _ => .put (.node id) (.node ((lab.map fun x => [x]).getD []) v) (.done .ok)
 
 def updateNodeSecond (id : Nat) (lab : Option Nat) (v : Nat) : Prog :=
   .get (.node id) (updateNodePut id lab v)
@@ -312,6 +323,147 @@ def updateEdgeProg (e : Nat) (v : Nat) : Prog :=
     | none => .done (.edgeNotFound e)
     | some _ => updateEdgeSecond e v
 
+
+/-! ### sequencing, label updates, batch operations -/
+
+/-- run `p`, hand its result to `k` (the `?` / `match` on the result of an inner call) -/
+def Prog.bind : Prog → (Res → Prog) → Prog
+  | .done r, k => k r
+  | .get key c, k => .get key fun v => (c v).bind k
+  | .put key v c, k => .put key v (c.bind k)
+  | .del key c, k => .del key fun b => (c b).bind k
+  | .ex key c, k => .ex key fun b => (c b).bind k
+  | .allocN c, k => .allocN fun n => (c n).bind k
+  | .allocE c, k => .allocE fun n => (c n).bind k
+  | .allocNs cnt c, k => .allocNs cnt fun n => (c n).bind k
+  | .allocEs cnt c, k => .allocEs cnt fun n => (c n).bind k
+  | .acq key c, k => .acq key (c.bind k)
+  | .rel key c, k => .rel key (c.bind k)
+
+/-- `get_node(..).labels`: a tensor without `_labels` has none -/
+def labelsOf : Val → List Nat
+  | .node l _ => l
+  | _ => []
+
+def propOf : Val → Nat
+  | .node _ v => v
+  | _ => 0
+
+/-- the write of `add_label` / `remove_label`: the record as read the SECOND time, its labels
+    replaced by `labs` (computed from the FIRST read) -/
+def labelPut (id : Nat) (labs : List Nat) (v2 : Option Val) : Prog :=
+  match v2 with
+  | none => .done (.nodeNotFound id)
+  | some val2 => .put (.node id) (.node labs (propOf val2)) (.done .ok)
+
+/-- `add_label`: get_node; nothing to do if the label is there; get again; put -/
+def addLabelProg (id l : Nat) : Prog :=
+  .get (.node id) fun v1 =>
+    match v1 with
+    | none => .done (.nodeNotFound id)
+    | some val1 =>
+      if l ∈ labelsOf val1 then .done .ok
+      else .get (.node id) (labelPut id (labelsOf val1 ++ [l]))
+
+/-- `remove_label`: get_node; nothing to do if the label is absent; get again; put -/
+def removeLabelProg (id l : Nat) : Prog :=
+  .get (.node id) fun v1 =>
+    match v1 with
+    | none => .done (.nodeNotFound id)
+    | some val1 =>
+      if l ∈ labelsOf val1 then .get (.node id) (labelPut id ((labelsOf val1).filter (fun x => x != l)))
+      else .done .ok
+
+structure EdgeIn where
+  a : Nat
+  b : Nat
+  d : Bool
+  ty : Nat
+  v : Nat
+  deriving DecidableEq, Repr
+
+/-- phase 3 of `batch_create_nodes`: `create_node_internal` for the pre-allocated ids, in input
+    order (for >= PARALLEL_THRESHOLD items the engine runs them on the rayon pool: the keys of
+    different items are disjoint, the final store is the same) -/
+def bcnLoop (start : Nat) : List (Nat × Nat) → Nat → Prog → Prog
+  | [], _, c => c
+  | (l, v) :: rest, i, c => (createNodeFrom (start + i) l v).bind fun _ => bcnLoop start rest (i + 1) c
+
+/-- `batch_create_nodes`: empty input answers at once; ids are one block of the counter -/
+def batchCreateNodesProg (items : List (Nat × Nat)) : Prog :=
+  if items.isEmpty then .done (.ids 0 0)
+  else .allocNs items.length fun start => bcnLoop start items 0 (.done (.ids start items.length))
+
+/-- phase 1 of `batch_create_edges`: both endpoints of EVERY input must exist before anything is
+    written; the first missing one fails the whole batch -/
+def bceValidate : List EdgeIn → Nat → Prog → Prog
+  | [], _, c => c
+  | e :: es, idx, c =>
+    .ex (.node e.a) fun oka =>
+      if !oka then .done (.batchInvalid idx e.a)
+      else .ex (.node e.b) fun okb =>
+        if !okb then .done (.batchInvalid idx e.b) else bceValidate es (idx + 1) c
+
+/-- phase 3 of `batch_create_edges`: `create_edge_internal` (no existence check) in input order -/
+def bceLoop (start : Nat) : List EdgeIn → Nat → Prog → Prog
+  | [], _, c => c
+  | e :: es, i, c => (createEdgeFrom (start + i) e.a e.b e.d e.ty e.v).bind fun _ => bceLoop start es (i + 1) c
+
+def batchCreateEdgesProg (items : List EdgeIn) : Prog :=
+  if items.isEmpty then .done (.ids 0 0)
+  else bceValidate items 0 <|
+    .allocEs items.length fun start => bceLoop start items 0 (.done (.ids start items.length))
+
+def causeOf : Res → Cause
+  | .storage => .storage
+  | .partialDel => .partialDel
+  | _ => .notFound
+
+/-- `batch_delete_edges`: `delete_edge` one after the other, failures collected -/
+def bdeLoop : List Nat → Nat → List Nat → List (Nat × Nat × Cause) → Prog
+  | [], _, del, fl => .done (.batchDel del.reverse fl.reverse)
+  | e :: es, idx, del, fl =>
+    (deleteEdgeProg e).bind fun r =>
+      match r with
+      | .ok => bdeLoop es (idx + 1) (e :: del) fl
+      | r => bdeLoop es (idx + 1) del ((idx, e, causeOf r) :: fl)
+
+def batchDeleteEdgesProg (ids : List Nat) : Prog := bdeLoop ids 0 [] []
+
+/-- `batch_delete_nodes`: `delete_node` one after the other (each with the iteration order of its
+    own edge set), failures collected -/
+def bdnLoop : List (Nat × List Nat) → Nat → List Nat → List (Nat × Nat × Cause) → Prog
+  | [], _, del, fl => .done (.batchDel del.reverse fl.reverse)
+  | (n, hint) :: ns, idx, del, fl =>
+    (deleteNodeProg n hint).bind fun r =>
+      match r with
+      | .ok => bdnLoop ns (idx + 1) (n :: del) fl
+      | r => bdnLoop ns (idx + 1) del ((idx, n, causeOf r) :: fl)
+
+def batchDeleteNodesProg (ids : List (Nat × List Nat)) : Prog := bdnLoop ids 0 [] []
+
+/-- `batch_update_nodes`, validation: `get_node` of every id first; the first missing one fails
+    the batch before any write -/
+def bunValidate : List (Nat × Option Nat × Nat) → Nat → Prog → Prog
+  | [], _, c => c
+  | (id, _, _) :: us, idx, c =>
+    .get (.node id) fun v =>
+      match v with
+      | none => .done (.batchInvalid idx id)
+      | some _ => bunValidate us (idx + 1) c
+
+/-- `batch_update_nodes`, application: `update_node` each, failures only not counted -/
+def bunLoop : List (Nat × Option Nat × Nat) → Nat → Prog
+  | [], cnt => .done (.count cnt)
+  | (id, lab, v) :: us, cnt =>
+    (updateNodeProg id lab v).bind fun r =>
+      match r with
+      | .ok => bunLoop us (cnt + 1)
+      | _ => bunLoop us cnt
+
+def batchUpdateNodesProg (us : List (Nat × Option Nat × Nat)) : Prog :=
+  bunValidate us 0 (bunLoop us 0)
+
 inductive Op where
   | createNode (label v : Nat)
   | createEdge (a b : Nat) (d : Bool) (ty v : Nat)
@@ -319,6 +471,13 @@ inductive Op where
   | deleteNode (n : Nat) (hint : List Nat)
   | updateNode (n : Nat) (lab : Option Nat) (v : Nat)
   | updateEdge (e : Nat) (v : Nat)
+  | addLabel (n l : Nat)
+  | removeLabel (n l : Nat)
+  | batchCreateNodes (items : List (Nat × Nat))
+  | batchCreateEdges (items : List EdgeIn)
+  | batchDeleteEdges (ids : List Nat)
+  | batchDeleteNodes (ids : List (Nat × List Nat))
+  | batchUpdateNodes (us : List (Nat × Option Nat × Nat))
   deriving Repr
 
 def Op.prog : Op → Prog
@@ -328,6 +487,13 @@ def Op.prog : Op → Prog
   | .deleteNode n h => deleteNodeProg n h
   | .updateNode n l v => updateNodeProg n l v
   | .updateEdge e v => updateEdgeProg e v
+  | .addLabel n l => addLabelProg n l
+  | .removeLabel n l => removeLabelProg n l
+  | .batchCreateNodes items => batchCreateNodesProg items
+  | .batchCreateEdges items => batchCreateEdgesProg items
+  | .batchDeleteEdges ids => batchDeleteEdgesProg ids
+  | .batchDeleteNodes ids => batchDeleteNodesProg ids
+  | .batchUpdateNodes us => batchUpdateNodesProg us
 
 /-- the operations as they were before 81b9c5b4 (no list lock) -/
 def Op.progOld : Op → Prog
@@ -347,6 +513,8 @@ def Prog.step : Prog → St → Prog × St
   | .ex k c, s => (c (s.kv k).isSome, s)
   | .allocN c, s => (c (s.nn + 1), { s with nn := s.nn + 1 })
   | .allocE c, s => (c (s.ne + 1), { s with ne := s.ne + 1 })
+  | .allocNs cnt c, s => (c (s.nn + 1), { s with nn := s.nn + cnt })
+  | .allocEs cnt c, s => (c (s.ne + 1), { s with ne := s.ne + cnt })
   | .acq _ c, s => (c, s)
   | .rel _ c, s => (c, s)
 
@@ -359,6 +527,8 @@ def run1 : Prog → St → Res × St
   | .ex k c, s => run1 (c (s.kv k).isSome) s
   | .allocN c, s => run1 (c (s.nn + 1)) { s with nn := s.nn + 1 }
   | .allocE c, s => run1 (c (s.ne + 1)) { s with ne := s.ne + 1 }
+  | .allocNs cnt c, s => run1 (c (s.nn + 1)) { s with nn := s.nn + cnt }
+  | .allocEs cnt c, s => run1 (c (s.ne + 1)) { s with ne := s.ne + cnt }
   | .acq _ c, s => run1 c s
   | .rel _ c, s => run1 c s
 
@@ -417,6 +587,8 @@ def Cfg.silent (pf : Op → Prog) (take : Bool) (c : Cfg) : Option Cfg :=
   match c.p with
   | .allocN k => some { c with p := k (c.s.nn + 1), s := { c.s with nn := c.s.nn + 1 } }
   | .allocE k => some { c with p := k (c.s.ne + 1), s := { c.s with ne := c.s.ne + 1 } }
+  | .allocNs cnt k => some { c with p := k (c.s.nn + 1), s := { c.s with nn := c.s.nn + cnt } }
+  | .allocEs cnt k => some { c with p := k (c.s.ne + 1), s := { c.s with ne := c.s.ne + cnt } }
   | .done r =>
     match c.rest with
     | [] => none
@@ -577,6 +749,98 @@ def traverse (m : KV) (start : Nat) (dir : Dir) (depth : Nat) (ty : Option Nat) 
   if nodeEx m start then
     some (sortDedup ((travLevels m dir ty depth [start] [start]).filter (nodeEx m)))
   else none
+
+
+/-! ### more observation points: edges_of, degree by type, scans, pagination -/
+
+/-- ids `edges_of` / `edges_of_paginated` look at: both lists (as asked), deduplicated, ascending -/
+def edgesOfIds (m : KV) (n : Nat) (dir : Dir) : List Nat :=
+  sortDedup ((if dir = .outgoing ∨ dir = .both then outL m n else []) ++
+             (if dir = .incoming ∨ dir = .both then inL m n else []))
+
+/-- `get_edge` of each id, ids without a (well-formed) record skipped -/
+def withRec (m : KV) (ids : List Nat) : List (Nat × EdgeRec) :=
+  ids.filterMap fun e => (edgeAt m e).map fun r => (e, r)
+
+/-- `edges_of(node, direction)`: `none` = NodeNotFound -/
+def edgesOf (m : KV) (n : Nat) (dir : Dir) : Option (List (Nat × EdgeRec)) :=
+  if nodeEx m n then some (withRec m (edgesOfIds m n dir)) else none
+
+def pageOf {α : Type} (l : List α) (skip : Nat) (limit : Option Nat) : List α :=
+  match limit with
+  | none => l.drop skip
+  | some k => (l.drop skip).take k
+
+def hasMore (len skip : Nat) (limit : Option Nat) : Bool :=
+  match limit with
+  | none => false
+  | some k => decide (len > skip + k)
+
+/-- `edges_of_paginated`: (items, total_count, has_more); the page is cut from the id list BEFORE
+    the records are fetched -/
+def edgesOfPage (m : KV) (n : Nat) (dir : Dir) (skip : Nat) (limit : Option Nat) :
+    Option (List (Nat × EdgeRec) × Nat × Bool) :=
+  if nodeEx m n then
+    some (withRec m (pageOf (edgesOfIds m n dir) skip limit), (edgesOfIds m n dir).length,
+      hasMore (edgesOfIds m n dir).length skip limit)
+  else none
+
+/-- `neighbors_paginated(node, edge_type, direction, None, pagination)` -/
+def neighborsPage (m : KV) (n : Nat) (dir : Dir) (ty : Option Nat) (skip : Nat) (limit : Option Nat) :
+    Option (List Nat × Nat × Bool) :=
+  match neighbors m n dir ty with
+  | none => none
+  | some l => some (pageOf l skip limit, l.length, hasMore l.length skip limit)
+
+/-- listed edge ids whose record exists and has type `ty` -/
+def countTy (m : KV) (l : List Nat) (ty : Nat) : Nat :=
+  (l.filter fun e => match edgeAt m e with | some r => r.ty == ty | none => false).length
+
+/-- `out_degree_by_type`, `in_degree_by_type`, `degree_by_type` -/
+def outDegreeByType (m : KV) (n ty : Nat) : Option Nat :=
+  if nodeEx m n then some (countTy m (outL m n) ty) else none
+def inDegreeByType (m : KV) (n ty : Nat) : Option Nat :=
+  if nodeEx m n then some (countTy m (inL m n) ty) else none
+def degreeByType (m : KV) (n ty : Nat) : Option Nat :=
+  if nodeEx m n then some (countTy m (outL m n) ty + countTy m (inL m n) ty) else none
+
+/-- `all_edges()`: scan of the `edge:` keys (ids are at most the counter), records that decode,
+    ascending by id -/
+def allEdges (s : St) : List (Nat × EdgeRec) := withRec s.kv (List.range (s.ne + 1))
+
+/-- `all_nodes()` / `get_all_node_ids()`: the `node:N` keys, ascending -/
+def allNodeIds (s : St) : List Nat := (List.range (s.nn + 1)).filter fun n => nodeEx s.kv n
+
+/-- `node_count()`, `edge_count()`: number of `node:N` / `edge:N` keys -/
+def nodeCount (s : St) : Nat := (allNodeIds s).length
+def edgeCount (s : St) : Nat :=
+  ((List.range (s.ne + 1)).filter fun e => (s.kv (.edge e)).isSome).length
+
+/-! ### re-opening an engine over an existing store -/
+
+/-- largest `i ≤ n` with `p i`, `0` if none -/
+def maxWhere (p : Nat → Bool) : Nat → Nat
+  | 0 => 0
+  | n + 1 => if p (n + 1) then n + 1 else maxWhere p n
+
+/-- `GraphEngine::with_store(store)`: same store, the counters are re-derived as the largest id among
+    the `node:N` keys resp. the `edge:N` keys (0 if none).  The scan sees every key; the model looks
+    at ids up to the old counters, above which no key exists (`Inv.freshN`, `Inv.freshE`). -/
+def reopen (s : St) : St :=
+  ⟨s.kv, maxWhere (fun n => (s.kv (.node n)).isSome) s.nn, maxWhere (fun e => (s.kv (.edge e)).isSome) s.ne⟩
+
+/-- a session: operations and re-openings -/
+inductive Cmd where
+  | op (o : Op)
+  | reopen
+
+def applyCmd (s : St) : Cmd → St
+  | .op o => (apply s o).2
+  | .reopen => reopen s
+
+def applyCmds (s : St) : List Cmd → St
+  | [] => s
+  | c :: cs => applyCmds (applyCmd s c) cs
 
 /-! ### executable well-formedness monitor (bounded by the id counters) -/
 
